@@ -127,7 +127,12 @@ func (g *vGen) msg(fs []*tField, keyName, keyVal string, nonEmpty bool) []string
 			if len(ks) > 0 {
 				toks = []string{"P" + strconv.Itoa(len(ks))}
 				for _, k := range ks {
-					toks = append(toks, keyTok(f.keyKind, k), g.scalar(f.kind, f.kind != "s"))
+					v := g.scalar(f.kind, f.kind != "s")
+					if f.kind == "s" && g.r.Intn(4) == 0 {
+						// the value of an in-cell map item is everything after the FIRST sub-separator: it may contain one
+						v = encStr([]string{"http://a.example/x", "12:30:45", "k=v", "a~b", "x:"}[g.r.Intn(5)])
+					}
+					toks = append(toks, keyTok(f.keyKind, k), v)
 				}
 			}
 		case f.card == 'l' && f.layout == 'v':
